@@ -15,6 +15,7 @@ pub mod c25;
 pub mod c29;
 pub mod c30;
 pub mod c34;
+pub mod eval;
 pub mod hist;
 pub mod structural;
 
@@ -79,6 +80,7 @@ pub struct PropInfo {
 pub fn registry() -> Vec<PropInfo> {
     let mut v = vec![];
     v.extend(hist::props());
+    v.extend(eval::props());
     v.extend(c09::props());
     v.extend(c11::props());
     v.extend(c24::props());
